@@ -37,3 +37,53 @@ pub open spec fn cl_result(vs: Seq<AsciiString>, r: Result<Option<u64>, HttpErro
         else { r is Err && r->Err_0 is InvalidContentLength }
     }
 }
+
+// ---- reading the Transfer-Encoding value.  Rule S1 stand-in for the iterator chain
+// `opt.as_ref().map(AsciiString::as_str).unwrap_or_default().split(',').map(str::trim).filter(|s| !s.is_empty())`
+// (assumed; compared with the real chain by the stand-in c03): the items of the comma-separated list, trimmed, empty ones dropped
+pub uninterp spec fn te_list(v: Seq<char>) -> Seq<Seq<char>>;
+#[verifier::external_body]
+pub fn te_items<'a>(opt: &'a Option<AsciiString>) -> (r: Vec<&'a str>)
+    ensures r@.len() == (match *opt { Some(a) => te_list(a.inner()@).len(), None => 0 }),
+        forall|i: int| 0 <= i < r@.len() ==> (#[trigger] r@[i])@ == te_list(opt->Some_0.inner()@)[i],
+{ unimplemented!() }
+// two `&str` with the same characters are the same string (assumed; Verus compares a string-literal pattern as a value)
+#[verifier::external_body]
+pub broadcast proof fn axiom_str_ext(a: &str, b: &str)
+    requires #[trigger] a@ == #[trigger] b@
+    ensures a == b
+{}
+pub open spec fn codings_of(items: Seq<Seq<char>>) -> Option<(bool, bool)> {
+    if items.len() == 0 { Some((false, false)) }
+    else if items.len() == 1 && items[0] == "gzip"@ { Some((true, false)) }
+    else if items.len() == 1 && items[0] == "chunked"@ { Some((false, true)) }
+    else if items.len() == 2 && items[0] == "gzip"@ && items[1] == "chunked"@ { Some((true, true)) }
+    else { None }
+}
+// what the region must answer for the Transfer-Encoding fields `vs`: (gzip, chunked), or the refusal
+pub open spec fn te_result(vs: Seq<AsciiString>, r: Result<(bool, bool), HttpError>) -> bool {
+    if vs.len() >= 2 { r is Err && r->Err_0 is UnsupportedTransferEncoding }
+    else {
+        let items = if vs.len() == 0 { Seq::<Seq<char>>::empty() } else { te_list(vs[0].inner()@) };
+        match codings_of(items) { Some(c) => r == Ok::<(bool, bool), HttpError>(c), None => r is Err && r->Err_0 is UnsupportedTransferEncoding }
+    }
+}
+
+// ---- how the body is delimited (taken from the property): a transfer coding -> to the end of the coding (unknown length);
+// a Content-Length N -> exactly N bytes (none for 0); neither -> POST / PUT bodies (and bodies announced with Expect or a
+// gzip coding) run to the end of the stream, every other method has no body
+use std::path::PathBuf;
+#[verifier::external_type_specification]
+#[verifier::external_body]
+pub struct ExPathBuf(PathBuf);
+#[verifier::external_body]
+pub struct TempFile { _p: () }
+pub open spec fn body_class(chunked: bool, cl: Option<u64>, method: Seq<char>, expect: bool, gzip: bool) -> RequestBody {
+    if chunked { RequestBody::PendingUnknown }
+    else {
+        match cl {
+            Some(n) => if n == 0 { RequestBody::StaticStr("") } else { RequestBody::PendingKnown(n) },
+            None => if method == "POST"@ || method == "PUT"@ || expect || gzip { RequestBody::PendingUnknown } else { RequestBody::StaticStr("") },
+        }
+    }
+}
